@@ -66,6 +66,7 @@ type Obligation struct {
 	Inputs  []modelProbe
 	Comment string
 	scriptText string
+	candText   string
 	Candidate  string // quantifier-free weakening that has a model (to be confirmed by replay)
 }
 
@@ -90,9 +91,19 @@ type Unit struct {
 	probes []modelProbe
 	usedLemmas map[string]bool
 	nonNil map[string]bool
+	covCtr int
+	callOrd map[string]int
+	usedSpec map[string]bool
 	bridge map[string]bool
 	concrete bool // ground evaluation: opaque spec functions are plain definitions
 	sched [][2]string // (k, err) result terms of calls on abstract streams
+}
+
+func (u *Unit) useSpec(n string) {
+	if u.usedSpec == nil {
+		u.usedSpec = map[string]bool{}
+	}
+	u.usedSpec[n] = true
 }
 
 func (u *Unit) fresh(prefix string) string {
